@@ -24,6 +24,9 @@ def body_text(body):
 
 
 def line_text(num, body):
+    if body[0] == 'ws':
+        # a line number followed by blanks only: deletes the line
+        return b'%d%s' % (num, body[1])
     return b'%d %s' % (num, body_text(body))
 
 
@@ -121,14 +124,15 @@ class ProgramModel(object):
 
     def merge(self, file_lines):
         for n, body in file_lines:
-            self.lines[n] = body
+            if body[0] == 'ws':
+                del self.lines[n]
+            else:
+                self.lines[n] = body
         return 'merge'
 
     def load(self, file_lines):
         self.lines = {}
-        for n, body in file_lines:
-            self.lines[n] = body
-        return 'load'
+        return 'load' + self.merge(file_lines)[5:]
 
     # -- execution from a line: ('end'|'undef'|'loop', [tags printed], line of the error)
 
